@@ -15,6 +15,7 @@
 #include <jsoncons_ext/toon/toon.hpp>
 #include <jsoncons_ext/toon/decode_toon.hpp>
 #include <sstream>
+#include <memory>
 #include <map>
 #include <tuple>
 
@@ -77,8 +78,10 @@ static void json_case(const std::string& t, Rng& r) {
     guard("json.reader", [&] { Recorder rec; rec.cap = 100000; std::error_code ec; json_string_reader rd(t, rec, o); rd.read(ec); });
     guard("json.cursor", [&] { std::error_code ec; json_string_cursor c(t, o, ec); if (!ec) walk_cursor(c, r); });
     guard("json.cursor(stream)", [&] { std::istringstream is(t); std::error_code ec; json_stream_cursor c(is, o, ec); if (!ec) walk_cursor(c, r); });
-    guard("json.parser(incremental)", [&] { json_decoder<json> d; json_parser p(o); std::error_code ec; size_t i = 0; std::vector<std::string> chunks; while (i < t.size()) { size_t n = 1 + r.below(17); chunks.push_back(t.substr(i, n)); i += n; }
-        for (auto& c : chunks) { p.update(c.data(), c.size()); p.parse_some(d, ec); if (ec) return; } p.finish_parse(d, ec); if (!ec) p.check_done(ec); });
+    // each chunk lives in its own heap block of exactly its size: a read past the end of a chunk is visible to ASan
+    guard("json.parser(incremental)", [&] { json_decoder<json> d; json_parser p(o); std::error_code ec; size_t i = 0; std::vector<std::unique_ptr<char[]>> chunks; std::vector<size_t> lens;
+        while (i < t.size()) { size_t n = 1 + r.below(r.coin() ? 4 : 17); if (n > t.size() - i) n = t.size() - i; std::unique_ptr<char[]> b(new char[n]); memcpy(b.get(), t.data() + i, n); chunks.push_back(std::move(b)); lens.push_back(n); i += n; }
+        for (size_t k = 0; k < chunks.size(); ++k) { p.update(chunks[k].get(), lens[k]); p.parse_some(d, ec); if (ec) return; } p.finish_parse(d, ec); if (!ec) p.check_done(ec); });
     guard("json.try_decode_json<T>", [&] { switch (r.below(5)) { case 0: { auto x = try_decode_json<std::vector<int>>(t); (void)x; break; } case 1: { auto x = try_decode_json<std::map<std::string, std::string>>(t); (void)x; break; } case 2: { auto x = try_decode_json<Pt>(t); (void)x; break; } case 3: { auto x = try_decode_json<std::tuple<int, std::string, double>>(t); (void)x; break; } default: { auto x = try_decode_json<std::vector<jsoncons::optional<double>>>(t); (void)x; } } });
     if (r.chance(1, 4)) guard("wjson.parse", [&] { std::wstring w; for (unsigned char c : t) w.push_back((wchar_t)c); wjson v = wjson::parse(w); std::wstring s; v.dump(s); });
 }
